@@ -92,8 +92,17 @@ pub struct Bed {
 
 impl Bed {
     pub fn new(tag: &str, traces: bool) -> Option<Bed> {
+        Bed::new_at(tag, traces, 0)
+    }
+
+    /// The bed on top of `base` empty blocks (initialise at height `base`).
+    pub fn new_at(tag: &str, traces: bool, base: u64) -> Option<Bed> {
         let mut d = new_driver(tag);
-        d.exec(Op::Init { hash: hist::ZERO_HASH.into(), ts: 1, height: 0 });
+        if base > 0 && !mine_to(&mut d, base) {
+            drop_driver(d);
+            return None;
+        }
+        d.exec(Op::Init { hash: hist::ZERO_HASH.into(), ts: 1, height: base });
         let pk = "5120c1c1c1c1c1c1c1c1c1c1c1c1c1c1c1c1c1c1c1c1c1c1c1c1c1c1c1c1c1c1c1".to_string();
         let h = crate::hist::bh((0xc16u64) as u64);
         let r1 = d.exec(Op::Deploy { pk: pk.clone(), data: hist::hx(&asm::tool_init()), enc: Enc::Hex, ctx: Ctx { ts: 2, hash: h.clone(), idx: 0 }, iid: "bed-tool".into(), len: 100_000, txid: hist::ZERO_HASH.into() });
